@@ -206,25 +206,44 @@ func runC12repl(cw *caseWriter, tier string, r *rng) {
 			all = append(all, [4]uint64{uint64(i), t, 0, uint64(200 + i)})
 		}
 		snapAt := 0
+		lo := 0 // the log store holds lo+1..n
 		if r.chance(1, 2) {
 			snapAt = 1 + r.intn(n-1)
 			g.snaps = []nsSnap{{idx: uint64(snapAt), term: all[snapAt-1][1], cfg: tabs[0], cfgidx: 1, data: []uint64{7}, ok: true}}
 			keep := r.intn(2) // entries kept below the snapshot
-			lo := snapAt - keep
+			lo = snapAt - keep
 			if lo < 1 {
 				lo = 1
 			}
-			g.entries = all[lo:]
-			if lo > 1 || keep == 0 {
-				g.entries = all[lo:]
+			if r.chance(1, 4) {
+				lo = 0 // nothing compacted yet (TrailingLogs): the log still starts at entry 1
 			}
+			g.entries = all[lo:]
 		} else {
 			g.entries = all
 		}
 		var calls []rpCall
 		for c := 0; c < 1+r.intn(3); c++ {
 			cl := rpCall{next0: uint64(1 + r.intn(n+1)), last: uint64(1 + r.intn(n))}
+			if r.chance(1, 6) {
+				cl.next0 = 1 // nextIndex 1: the previous entry is (0,0) whatever the snapshot says
+			}
 			na := 1 + r.intn(7)
+			if snapAt > 0 && int(cl.next0) <= lo {
+				// the entries needed were compacted away: the snapshot is sent; the follower refuses it a few times (the call goes on
+				// while nextIndex <= last), then takes it (nextIndex and the match move past it), answers with a newer term, or the transfer fails
+				for k := r.intn(3); k > 0; k-- {
+					cl.answers = append(cl.answers, []uint64{2, g.term, 0})
+				}
+				switch x := r.intn(10); {
+				case x < 7:
+					cl.answers = append(cl.answers, []uint64{2, g.term, 1})
+				case x < 8:
+					cl.answers = append(cl.answers, []uint64{2, g.term + 1, 0})
+				case x < 9:
+					cl.answers = append(cl.answers, []uint64{0})
+				}
+			}
 			for i := 0; i < na; i++ {
 				switch x := r.intn(100); {
 				case x < 8:
